@@ -54,7 +54,7 @@ Definition stmt_okb (L : list placed) (lbls : labels) (p : placed) : bool :=
   | SWordFlip ea ev er _ =>
     match eval_expr (env_at lbls a') ea, eval_expr (env_at lbls a') ev, eval_expr (env_at lbls a') er with
     | Some A, Some V, Some R =>
-      (0 <=? a) && (a mod w =? 0) && (0 <=? A) && (0 <=? V) && (V <? 2 ^ w) && (0 <=? R)
+      (0 <=? a) && (a mod w =? 0) && ((V =? 0) || (0 <=? A)) && (0 <=? V) && (V <? 2 ^ w) && (0 <=? R)
       && wflip_okb L (Z.to_N a) (Z.to_N A) (Z.to_N V) (Z.to_N R)
     | _, _, _ => false
     end
